@@ -59,9 +59,9 @@ APIS = ["text", "pages", "fp_text", "fp_xml"]
 def minimums(tier: str) -> Dict[str, int]:
     if tier == "quick":
         return {"evaluations": 4000, "distinct": 150, "calls_compared": 4000, "fingerprint_checks": 4000, "interleaved_pages": 300,
-                "seen:docs_used": 44, "page_at_a_time_calls": 300, "caching_off_calls": 800, "group_round_robins": 16}
+                "seen:docs_used": 48, "page_at_a_time_calls": 300, "caching_off_calls": 800, "group_round_robins": 16}
     return {"evaluations": 100000, "distinct": 3000, "calls_compared": 90000, "fingerprint_checks": 90000, "interleaved_pages": 8000,
-            "seen:docs_used": 44, "page_at_a_time_calls": 9000, "caching_off_calls": 25000, "group_round_robins": 16}
+            "seen:docs_used": 48, "page_at_a_time_calls": 9000, "caching_off_calls": 25000, "group_round_robins": 16}
 
 
 # --------------------------------------------------------------------------
@@ -334,6 +334,43 @@ def build_pool() -> List[Dict[str, Any]]:
     mbody = b"BT /F1 12 Tf 30 200 Td (many names) Tj ET " + b" ".join(b"/T%x BMC EMC" % i for i in range(67000))
     add("many-distinct-names", page_doc([{"content": Stream({"Filter": N("FlateDecode")}, _zlib.compress(mbody)),
                                           "resources": {"Font": {"F1": font_type1("Helvetica")}}, "mediabox": [0, 0, 300, 300]}]).build(), "misc")
+    # a form XObject WITHOUT /Resources (PDF 1.1 style: it uses the invoking page's), painted by two pages that map /F1
+    # to differently encoded fonts: each invocation sees its own page's resources
+    fw = Doc()
+    fwa = fw.add(dict(font_widths(name="FormA", first=32, widths=[500] * 95, subtype="TrueType", encoding=N("WinAnsiEncoding"))))
+    fwb = fw.add(dict(font_widths(name="FormB", first=32, widths=[700] * 95, subtype="TrueType",
+                                  encoding={"Type": N("Encoding"), "BaseEncoding": N("WinAnsiEncoding"), "Differences": [65, N("X"), N("Y"), N("Z")]})))
+    fwform = fw.add(Stream({"Type": N("XObject"), "Subtype": N("Form"), "BBox": [0, 0, 300, 300]}, b"BT /F1 12 Tf 30 100 Td (ABC) Tj ET"))
+    add("form-without-resources", page_doc([{"content": b"/Fm0 Do", "resources": {"Font": {"F1": fwa}, "XObject": {"Fm0": fwform}}, "mediabox": [0, 0, 300, 300]},
+                                            {"content": b"/Fm0 Do", "resources": {"Font": {"F1": fwb}, "XObject": {"Fm0": fwform}}, "mediabox": [0, 0, 300, 300]},
+                                            {"content": b"/Fm0 Do", "resources": {"Font": {"F1": fwa}, "XObject": {"Fm0": fwform}}, "mediabox": [0, 0, 300, 300]}], doc=fw).build(), "forms")
+    # a CID font whose /Encoding is an embedded CMap STREAM that calls itself /H but writes vertically, and a twin that
+    # uses the predefined CMap /H: the predefined CMap is a process-wide object
+    hcmap = (b"/CIDInit /ProcSet findresource begin 12 dict begin begincmap\n/CMapName /H def /WMode 1 def\n"
+             b"1 begincodespacerange <2121> <7E7E> endcodespacerange\n1 begincidrange <3021> <3023> 1125 endcidrange\nendcmap end end\n")
+    for hname, embedded in (("cmap-H-embedded-vertical", True), ("cmap-H-predefined", False)):
+        hd = Doc()
+        hfd = hd.add({"Type": N("FontDescriptor"), "FontName": N("Ryumin-Light"), "Flags": 4, "FontBBox": [0, -120, 1000, 880], "ItalicAngle": 0,
+                      "Ascent": 880, "Descent": -120, "CapHeight": 700, "StemV": 80})
+        hcid = hd.add({"Type": N("Font"), "Subtype": N("CIDFontType0"), "BaseFont": N("Ryumin-Light"),
+                       "CIDSystemInfo": {"Registry": b"Adobe", "Ordering": b"Japan1", "Supplement": 2}, "FontDescriptor": hfd, "DW": 1000})
+        henc: Any = hd.add(Stream({"Type": N("CMap"), "CMapName": N("H"), "WMode": 1}, hcmap)) if embedded else N("H")
+        hf = hd.add({"Type": N("Font"), "Subtype": N("Type0"), "BaseFont": N("Ryumin-Light-H"), "Encoding": henc, "DescendantFonts": [hcid]})
+        hpages = [{"content": b"BT /F1 20 Tf 100 %d Td <302130223023> Tj ET" % y, "resources": {"Font": {"F1": hf}}, "mediabox": [0, 0, 300, 300]} for y in (250, 200)]
+        add(hname, page_doc(hpages, doc=hd).build(), "cmap-H")
+    # an embedded Type 1 program whose header starts from StandardEncoding and overrides two codes, next to a plain
+    # StandardEncoding font: the shared StandardEncoding table must stay what it is
+    t1head = (b"%!PS-AdobeFont-1.0: GreekDemo 001.000\n11 dict begin\n/FontName /GreekDemo def\n/PaintType 0 def /FontType 1 def\n"
+              b"/FontMatrix [0.001 0 0 0.001 0 0] readonly def\n/Encoding StandardEncoding 256 array copy def\nEncoding 65 /Alpha put\nEncoding 66 /Beta put\n"
+              b"/FontBBox {0 -200 1000 800} readonly def\ncurrentdict end\ncurrentfile eexec\n")
+    t1d = Doc()
+    t1ff = t1d.add(Stream({"Length1": len(t1head), "Length2": 0, "Length3": 0}, t1head))
+    t1a = dict(font_widths(name="GreekDemo", first=32, widths=[500] * 95, subtype="Type1"))
+    t1a["FontDescriptor"] = dict(t1a["FontDescriptor"], FontFile=t1ff)
+    t1b = dict(font_widths(name="PlainDemo", first=32, widths=[500] * 95, subtype="Type1"))
+    add("type1-program-overrides-standardencoding", page_doc([{"content": b"BT /F1 12 Tf 30 200 Td (ABC) Tj ET", "resources": {"Font": {"F1": t1d.add(t1a)}}, "mediabox": [0, 0, 300, 300]},
+                                                              {"content": b"BT /F1 12 Tf 30 200 Td (ABC) Tj ET", "resources": {"Font": {"F1": t1d.add(t1b)}}, "mediabox": [0, 0, 300, 300]}], doc=t1d).build(),
+        "enc:StandardEncoding")
     # more encrypted twins with OTHER keys and crypt filters of the same name (StdCF): iterators over several of them
     # are interleaved, so each document must keep using its own handler and key
     tw = _simple_doc(dict(helv, Encoding=N("WinAnsiEncoding")), t2)
